@@ -231,8 +231,21 @@ impl UnrepairedDatabaseHeader {
                 .trailing_region_layout()
                 .map(RegionLayout::num_pages)
                 .unwrap_or_default();
-            let layout_matched = recalculated.num_full_regions() == self.inner.full_regions
-                && trailing_pages == self.inner.trailing_partial_region_pages;
+            // A file of exactly N full regions may be stored as N-1 full regions plus a trailing
+            // region of the maximum size (DatabaseLayout::calculate() produces that form), while
+            // recalculate() always reports N full regions. Both describe the same layout, so
+            // normalize the stored counts before comparing them.
+            let (stored_full_regions, stored_trailing_pages) =
+                if self.inner.trailing_partial_region_pages == self.inner.region_max_data_pages {
+                    (u64::from(self.inner.full_regions) + 1, 0)
+                } else {
+                    (
+                        u64::from(self.inner.full_regions),
+                        self.inner.trailing_partial_region_pages,
+                    )
+                };
+            let layout_matched = u64::from(recalculated.num_full_regions()) == stored_full_regions
+                && trailing_pages == stored_trailing_pages;
             self.inner.set_layout(recalculated);
             let kept_primary = self.select_primary_slot()?;
             return Ok((self.inner, kept_primary && layout_matched));
